@@ -367,6 +367,25 @@ theorem verifyWith_ok_iff (k : B) (m : Mac B) (dms : List (Mac B)) (pids : List 
           constructor <;> (intro h; rw [h])
         · simp [he]
 
+theorem mapM_mem {α β : Type} (f : α → Option (List β)) (l : List α) (css : List (List β))
+    (h : l.mapM f = some css) (a : α) (ha : a ∈ l) : ∃ r, f a = some r ∧ ∀ c ∈ r, c ∈ css.flatten := by
+  induction l generalizing css with
+  | nil => cases ha
+  | cons x xs ih =>
+    simp only [List.mapM_cons, Option.pure_def, Option.bind_eq_bind] at h
+    cases hf : f x with
+    | none => simp [hf] at h
+    | some r =>
+      cases hr : xs.mapM f with
+      | none => simp [hf, hr] at h
+      | some rs =>
+        simp [hf, hr] at h; subst h
+        simp only [List.mem_cons] at ha
+        rcases ha with rfl | ha
+        · exact ⟨r, hf, fun c hc => by simp [hc]⟩
+        · obtain ⟨r', hr', hsub⟩ := ih rs hr ha
+          exact ⟨r', hr', fun c hc => by simp [hsub c hc]⟩
+
 /-! ### who can end up in the discharge queue -/
 
 theorem mem_byTicket (dms : List (Mac B)) (ticket : B) (ds : List (Mac B)) (h : byTicket dms ticket = some ds) :
